@@ -724,6 +724,30 @@ def rule_cusum(ctx):
       return True
     return monotone(v, direction)
 
+  def exact(v, direction, facts):
+    """The extremum is exact, not only on the right side of 0.  The loop tracks an extremum only outside the band of counted states, so its exit value
+    is the walk's extremum only when it is known to be non-zero at the use; the 0-clamped fall-back (extremum of the counted states) is the walk's extremum
+    only when the loop value of that side is known to be 0."""
+    def knows(u, nonzero):
+      for fc in facts:
+        if fc[0] in ("truthy", "falsy") and isinstance(fc[1], Poly) and fc[1] == u and (fc[0] == "truthy") == nonzero:
+          return True
+        if fc[0] == "cmp" and isinstance(fc[2], Poly) and isinstance(fc[3], Poly) and fc[2] == u and fc[3].is_zero():
+          ops = ("NotEq", "Gt" if direction > 0 else "Lt") if nonzero else ("Eq", "LtE" if direction > 0 else "GtE")
+          if fc[1] in ops:
+            return True
+      return False
+    if v.is_zero():
+      return True
+    a = v.as_atom()
+    if a is not None and a.kind == ("max" if direction > 0 else "min") and any(as_poly(x).is_zero() for x in a.args):
+      # the fall-back: some loop-tracked extremum of this side is known to be 0 here
+      cands = {Poly.atom(t_) for fc in facts for q_ in fc[1:] if isinstance(q_, Poly) for t_ in q_.all_atoms() if t_.kind == "sym"}
+      return any(monotone(u, direction) and knows(u, False) for u in cands)
+    if monotone(v, direction):
+      return knows(v, True)
+    return True
+
   rows = {"forward": [], "reverse": []}
   for evs in calls.values():
     for e in evs:
@@ -734,6 +758,7 @@ def rule_cusum(ctx):
       p1, p2 = as_poly(d.args[0]), as_poly(d.args[1])
       # split into (A - S, S - B): S is the walk's end point = exit value of the loop variable that is also added to / subtracted
       best = None
+      inexact = None
       for x, y in ((p1, p2), (p2, p1)):
         for sA in [None] + [a_ for a_ in x.atoms() if a_.kind == "sym"]:
           S = Poly.atom(sA) if sA is not None else Poly.const(0)
@@ -742,11 +767,15 @@ def rule_cusum(ctx):
             continue
           if signed(A, +1) and signed(B, -1):
             best = (A, B, S)
+            if not exact(A, +1, e.facts):
+              inexact = "the maximum %r is used on a path that does not fix whether the walk ever rose above the band of counted states (loop value only when non-zero, fall-back only when it is 0)" % (A,)
+            elif not exact(B, -1, e.facts):
+              inexact = "the minimum %r is used on a path that does not fix whether the walk ever fell below the band of counted states (loop value only when non-zero, fall-back only when it is 0)" % (B,)
       kind = "reverse" if any(a_.kind == "sym" and a_ in p1.atoms() and a_ in p2.atoms() for a_ in p1.atoms()) else "forward"
       if best is None:
         rows[kind].append("max(%r, %r): no reading as (max - end, end - min) with max >= 0 >= min: an extremum can lie on the wrong side of S_0 = 0" % (p1, p2))
       else:
-        rows[kind].append("")
+        rows[kind].append(inexact or "")
   for kind in ("forward", "reverse"):
     bad = sorted({x for x in rows[kind] if x})
     ctx.record(R, f.where, "%s distance uses extrema that include S_0 = 0" % kind, bool(rows[kind]) and not bad, "; ".join(bad)[:400] or
